@@ -110,10 +110,26 @@ def _run_case_entry(arg):
     return eng.run_case(case)
 
 
+WALL_RETRIES = {"count": 0}
+
+
+def _wall_timeout(status, res) -> bool:
+    # the run's own SIGALRM guard (wait status 14) or the parent's select deadline
+    return status != "ok" and ("wall limit" in str(res) or "wait status=14" in str(res))
+
+
 def run_cases(engine, cases, workers=None, timeout_s=None):
+    """Runs every case in its own forked child.  A run that is killed by its wall-clock guard is executed once more, alone
+    and with three times the limit, before it counts as a harness error: wall time is the one thing the simulator does
+    not control (a loaded machine), and a run's outcome never depends on it."""
     timeout_s = timeout_s or getattr(engine, "RUN_TIMEOUT_S", 120.0)
     tasks = [(engine.__name__, c) for c in cases]
-    return forkpool.run_batch(_run_case_entry, tasks, workers=workers, timeout_s=timeout_s)
+    results = forkpool.run_batch(_run_case_entry, tasks, workers=workers, timeout_s=timeout_s)
+    for i, (status, res) in enumerate(results):
+        if _wall_timeout(status, res):
+            WALL_RETRIES["count"] += 1
+            results[i] = forkpool.run_batch(_run_case_entry, [tasks[i]], workers=1, timeout_s=3 * timeout_s)[0]
+    return results
 
 
 def make_case(engine, prop: str, seed: int, index: int, tier: str) -> dict:
@@ -336,6 +352,7 @@ def check(prop: str, tier: str) -> int:
     # ---- evidence ----------------------------------------------------------------
     coverage = {
         "evaluations": stats["runs"],
+        "wall_timeout_retries": WALL_RETRIES["count"],
         "distinct_nontrivial": len(nontrivial_sigs),
         "rule": engine.RULE,
         "samples": samples if samples else [{"note": "no sample collected"}],
